@@ -2,7 +2,7 @@
 import ast
 
 from ..core import AnalysisError, src
-from ..pysym import SymExec, show, subterms, str_parts
+from ..pysym import SymExec, show, subterms, str_parts, all_calls
 from ..rules_pyx import N, C, A
 from .. import codec
 
@@ -64,12 +64,50 @@ def role_of(tok, p):
     return ('other:' + txt[:30], lits)
 
 
+def r_read_auto(repo, rep, R='R8.5'):
+    """read_auto repairs the two known treebank glitches field by field; what reaches the line reader is otherwise the
+    line as written.  A repair applied to the whole line (str.replace / regex substitution) also rewrites every field
+    that merely *contains* the glitch text -- three categories of the tag set start with the broken category."""
+    rm = repo.module(RD)
+    fn = rm.get('read_auto')
+    w = '%s:%s read_auto' % (RD, fn.lineno)
+    seen = False
+    bad = []
+    for st, o in SymExec(fn, unroll=1).run():
+        for c_ in all_calls(st, N('_AutoLineReader')):
+            seen = True
+            if not c_[2]:
+                continue
+            arg = c_[2][0]
+
+            def whole_line(t):
+                if t[0] == 'elem':
+                    return True
+                if t[0] == 'call' and t[1][0] == 'attr' and t[1][2] in ('strip', 'rstrip', 'lstrip') and whole_line(t[1][1]):
+                    return True
+                if t[0] == 'ifexp':
+                    return whole_line(t[2]) or whole_line(t[3])
+                return False
+            for s_ in subterms(arg):
+                if s_[0] == 'call' and s_[1][0] == 'attr' and s_[1][2] in ('replace', 'translate') and (whole_line(s_[1][1]) or any(
+                        x[0] == 'call' and x[1][0] == 'attr' and x[1][2] in ('replace', 'sub') for x in subterms(s_[1][1]))):
+                    bad.append(show(s_)[:80])
+                if s_[0] == 'call' and s_[1][0] == 'attr' and s_[1][2] in ('sub', 'subn') and len(s_[2]) >= 2 and (whole_line(s_[2][1]) or any(
+                        x[0] == 'call' and x[1][0] == 'attr' and x[1][2] in ('replace', 'sub') for x in subterms(s_[2][1]))):
+                    bad.append(show(s_)[:80])
+    if not seen:
+        raise AnalysisError('%s: read_auto never constructs the line reader' % RD)
+    rep.check(not bad, R, w, 'read_auto:field-wise-repair', 'treebank glitches are repaired on whole fields only; every other field reaches the reader as written',
+              'the line is rewritten as a whole before it is read: %s -- fields that only contain the pattern are changed too' % sorted(set(bad))[:2])
+
+
 def check(repo, rep, tier):
     rep.rule('R8.1', 'leaf record: writer fields vs parse_leaf cursor reads')
     rep.rule('R8.2', 'node record: header fields, child loop, closing bracket')
     rep.rule('R8.3', 'head flag polarity writer/reader')
     rep.rule('R8.4', 'conll fragments are the AUTO templates')
     rep.rule('R8.5', 'escaping discipline (denormalize in all writers, idempotent, reader keeps escaped spelling)')
+    r_read_auto(repo, rep)
     am = repo.module(AUTO)
     p, (lst, leaf), (nst, node) = writer_templates(am, 'auto_of')
     ltoks = codec.fstr_tokens(leaf)
@@ -123,6 +161,26 @@ def check(repo, rep, tier):
                         if e[0] == 'call' and e[1][1] == A(N('self'), 'check'))
         rep.check(checks == sorted([("'('", '0'), ("'<'", '1'), ("'L'", '2')]), 'R8.1', wr, 'parse_leaf:marker',
                   'parse_leaf verifies the marker "(<L" the writer emits', 'parse_leaf checks %s' % checks)
+    # next() cuts a field at the next blank; the record that ends the line has none after its last field (find() gives -1 and
+    # the slice drops the field's last character).  A leaf can be the whole line, so the value of its last field must not
+    # decide anything.
+    for st, o in cur.paths:
+        k = st.data.get('k', 0)
+        if not k:
+            continue
+        last = ('sym', 'field', k - 1)
+        used = []
+        for c, pol, cnode in st.conds:
+            if last in set(subterms(c)):
+                used.append('test `%s`' % src(cnode.test if hasattr(cnode, 'test') else cnode)[:60])
+        for e in st.events:
+            if e[0] in ('call', 'setattr', 'setitem', 'return', 'raise') and any(last in set(subterms(x)) for x in e[1:-1] if isinstance(x, tuple)):
+                used.append('%s `%s`' % (e[0], src(e[-1])[:60]))
+        if st.ret is not None and last in set(subterms(st.ret)):
+            used.append('returned value')
+        rep.check(not used, 'R8.1', wr, 'parse_leaf:last-field-unused',
+                  'the value of the leaf\'s last field (truncated by next() when the leaf ends the line) is not used',
+                  'the value of the leaf\'s last field is used (%s): for a tree that is one leaf next() returns it without its last character' % '; '.join(sorted(set(used))[:2]))
     rep.floor('returning paths of parse_leaf', len(ok_paths), 1)
     # node record
     ntoks = codec.fstr_tokens(node)
